@@ -965,7 +965,7 @@ func (x *VC) typeInvFacts(a *Addr, v *Val) {
 	}
 	c, ts := x.typeInvCond(ti, v.T)
 	v.Alt = ts
-	x.assume("true", c)
+	x.fact(c)
 	x.externs["typeinv assumed on load: "+ti.Type+"."+ti.Field] = true
 }
 
@@ -992,7 +992,7 @@ func (x *VC) elemTypeInvFacts(src string, v *Val, nilOK bool) {
 	if nilOK {
 		c = sOr(sEq(v.T, "0"), c)
 	}
-	x.assume("true", c)
+	x.fact(c)
 	x.externs["typeinv assumed on load: "+ti.Type+"."+ti.Field] = true
 }
 
@@ -1089,13 +1089,35 @@ func (fr *Frame) writeSet(h *ssa.BasicBlock, st *State) (map[string]bool, map[*s
 	var scanFn func(f *ssa.Function, blocks map[*ssa.BasicBlock]bool, depth int)
 	addField := func(owner types.Type, path []string, ft types.Type) {
 		key := "F|" + shortTypeFull(owner) + "|" + strings.Join(path, ".")
-		switch ft.Underlying().(type) {
+		ad := &Addr{Kind: AField, Owner: owner, PathN: path, ElemT: ft}
+		switch u := ft.Underlying().(type) {
 		case *types.Slice:
-			comps[key+"#arr"], comps[key+"#off"], comps[key+"#len"] = true, true, true
+			comps[x.fieldComp(ad, "#arr").Key], comps[x.fieldComp(ad, "#off").Key], comps[x.fieldComp(ad, "#len").Key] = true, true, true
 		case *types.Struct:
-			comps[key+".*"] = true
+			var walk func(su *types.Struct, p []string)
+			walk = func(su *types.Struct, p []string) {
+				for i := 0; i < su.NumFields(); i++ {
+					f := su.Field(i)
+					np := append(append([]string{}, p...), f.Name())
+					if s2, ok := f.Type().Underlying().(*types.Struct); ok {
+						walk(s2, np)
+						continue
+					}
+					a2 := &Addr{Kind: AField, Owner: owner, PathN: np, ElemT: f.Type()}
+					if _, ok := f.Type().Underlying().(*types.Slice); ok {
+						comps[x.fieldComp(a2, "#arr").Key], comps[x.fieldComp(a2, "#off").Key], comps[x.fieldComp(a2, "#len").Key] = true, true, true
+					} else if x.sortOf(f.Type()) != "" {
+						comps[x.fieldComp(a2, "").Key] = true
+					}
+				}
+			}
+			walk(u, path)
 		default:
-			comps[key] = true
+			if x.sortOf(ft) != "" {
+				comps[x.fieldComp(ad, "").Key] = true
+			} else {
+				comps[key] = true
+			}
 		}
 	}
 	var addrOf func(v ssa.Value) (types.Type, []string, types.Type, *ssa.Alloc, bool)
@@ -1151,11 +1173,11 @@ func (fr *Frame) writeSet(h *ssa.BasicBlock, st *State) (map[string]bool, map[*s
 				}
 			}
 			if c.Fresh {
-				comps["alloc"] = true
+				comps[x.allocComp().Key] = true
 			}
 			return
 		}
-		if returnsOnlyLogger(f.Signature) {
+		if returnsOnlyLogger(f.Signature) || isStringer(f) {
 			return
 		}
 		if f.Pkg != nil {
@@ -1168,7 +1190,7 @@ func (fr *Frame) writeSet(h *ssa.BasicBlock, st *State) (map[string]bool, map[*s
 		case "fmt.Sprintf":
 			return
 		case "fmt.Fprintf", "(*strings.Builder).WriteString":
-			comps["F|strings.Builder|$content"] = true
+			comps[x.comp("F|strings.Builder|$content", "Int", "String").Key] = true
 			return
 		case "(*strings.Builder).String":
 			return
@@ -1263,7 +1285,7 @@ func (fr *Frame) writeSet(h *ssa.BasicBlock, st *State) (map[string]bool, map[*s
 									addField(pt.Elem(), []string{su.Field(k).Name()}, su.Field(k).Type())
 								}
 							} else if s := x.sortOf(pt.Elem()); s != "" {
-								comps["P|"+shortTypeFull(pt.Elem())] = true
+								comps[x.comp("P|"+shortTypeFull(pt.Elem()), "Int", s).Key] = true
 							} else {
 								all = true
 							}
@@ -1276,17 +1298,17 @@ func (fr *Frame) writeSet(h *ssa.BasicBlock, st *State) (map[string]bool, map[*s
 				case *ssa.MakeMap:
 					mt := i.Type().Underlying().(*types.Map)
 					d, _, c := x.mapComps(mt)
-					comps[d.Key], comps[c.Key], comps["alloc"] = true, true, true
+					comps[d.Key], comps[c.Key], comps[x.allocComp().Key] = true, true, true
 				case *ssa.Alloc:
 					if cellLike(i) {
 						cells[i] = true
 					} else {
-						comps["alloc"] = true
+						comps[x.allocComp().Key] = true
 					}
 				case *ssa.MakeChan:
-					comps["alloc"] = true
+					comps[x.allocComp().Key] = true
 				case *ssa.Send:
-					comps["G|chan.sent"] = true
+					comps[x.comp("G|chan.sent", "Int", "Int").Key] = true
 				case *ssa.Call:
 					scanCall(&i.Call, depth)
 				case *ssa.Defer:
@@ -1352,17 +1374,6 @@ func (fr *Frame) loopHeader(h *ssa.BasicBlock, st *State, reach string) (*State,
 			continue // never touched so far: first touch after the loop would read the entry epoch; force a fresh epoch instead
 		}
 		x.havocComp(nst, cp)
-	}
-	// components the loop writes but that were not materialised yet
-	missing := false
-	for _, k := range keys {
-		if _, ok := x.comps[k]; !ok && !strings.HasSuffix(k, ".*") {
-			missing = true
-		}
-	}
-	if missing && !all {
-		// conservative: new epoch for untouched components
-		x.pendingHavoc(nst, keys)
 	}
 	for cell := range cells {
 		if v, ok := nst.C[cell]; ok {
@@ -1444,10 +1455,10 @@ func (x *VC) havocVal(v *Val, hint string) *Val {
 		r.Arr = x.declare("hv_"+hint+"_arr", fmt.Sprintf("(Array %s %s)", x.idxSort(), v.ES))
 		r.Off = x.declare("hv_"+hint+"_off", x.idxSort())
 		r.Len = x.declare("hv_"+hint+"_len", x.idxSort())
-		x.assume("true", sAnd(x.cmpS("<=", x.ilit(0), r.Len), x.cmpS("<=", x.ilit(0), r.Off)))
+		x.fact(sAnd(x.cmpS("<=", x.ilit(0), r.Len), x.cmpS("<=", x.ilit(0), r.Off)))
 		if x.mode == "math" {
-			x.assume("true", "(<= "+r.Len+" 4611686018427387904)")
-			x.assume("true", "(<= "+r.Off+" 4611686018427387904)")
+			x.fact("(<= "+r.Len+" 4611686018427387904)")
+			x.fact("(<= "+r.Off+" 4611686018427387904)")
 		}
 		return r
 	case KStruct:
